@@ -63,7 +63,10 @@ def const_value(spec: typing.Any) -> st.SearchStrategy:
     if k in ("uint", "int"):
         w = spec[1]
         lo, hi = (0, (1 << w) - 1) if k == "uint" else (-(1 << (w - 1)), (1 << (w - 1)) - 1)
-        n = st.one_of(st.sampled_from(sorted({lo, hi, 0 if lo <= 0 <= hi else lo, max(lo, min(hi, 1))})), st.integers(lo, hi))
+        corners = {lo, hi, 0 if lo <= 0 <= hi else lo, max(lo, min(hi, 1))}
+        if k == "uint" and w == 8:
+            corners.add(10)  # may be spelled as a character literal that holds a raw line break
+        n = st.one_of(st.sampled_from(sorted(corners)), st.integers(lo, hi))
 
         def spell(args: typing.Tuple[int, int]) -> typing.Tuple[str, typing.Any]:
             v, style = args
@@ -74,6 +77,10 @@ def const_value(spec: typing.Any) -> st.SearchStrategy:
                 body = s[:-3] + "_" + s[-3:]
             if style % 7 == 6 and k == "uint" and w == 8 and 32 <= v < 127 and chr(v) not in "'\\":
                 return "'%s'" % chr(v), ["int", v]
+            if style % 2 == 0 and k == "uint" and w == 8 and v == 10:
+                # a raw line break inside the literal: the renderer spells it like every other line ending of the file (LF or CRLF),
+                # and either way it is one line feed to the reader
+                return ("'\n'" if style % 4 == 0 else '"\n"'), ["int", v]
             text = body if v >= 0 else "-" + body
             if style % 5 == 4 and lo <= v - 1:
                 text = "%s + 1" % (str(v - 1) if v - 1 >= 0 else "-" + str(1 - v))
@@ -120,7 +127,7 @@ def _refer(spec: typing.Any, expr: str, value: typing.Any, earlier: typing.Seque
     if mode in (1, 2) and fitting:
         n, v = fitting[-1] if mode == 1 else fitting[0]
         return n, v
-    if mode in (3, 4) and numeric and spec[0] != "bool" and not expr.startswith("'"):  # (a character literal is no number yet)
+    if mode in (3, 4) and numeric and spec[0] != "bool" and not expr.startswith(("'", '"')):  # (a character literal is no number yet)
         n, _ = numeric[-1] if mode == 3 else numeric[0]
         return "%s + %s - %s" % (expr, n, n), value
     if mode == 5 and spec[0] == "bool":
@@ -205,7 +212,7 @@ def section(max_items: int = 8) -> st.SearchStrategy:
         const_item,
         const_item,
         const_item,
-        st.fixed_dictionaries({"k": st.just("dir"), "ref": ref, "text": st.sampled_from(["@assert true", "@print 1", "@assert 2 > 1", "@print"])}),
+        st.fixed_dictionaries({"k": st.just("dir"), "ref": ref, "text": st.sampled_from(["@assert true", "@print 1", "@assert 2 > 1", "@print", "@assert true", "@print 1", "@assert 'a\nb' == 'a\\nb'", "@print 'x\n'", '@assert "\n\n" == "\\n" + \'\\n\'', "@assert '\n' != '\\r\\n'"])}),
         st.fixed_dictionaries({"k": st.just("orphan"), "lines": st.lists(comment_line(), min_size=1, max_size=2)}),
     )
     return st.tuples(
@@ -351,6 +358,7 @@ def render(model: typing.Any, fmt: typing.Any, tb: TextBuilder) -> str:
 
     def statement(text: str, same: typing.Optional[str] = None) -> None:
         neutral_before_statement()
+        text = text.replace("\n", fmt["eol"])  # a line break inside a string literal is a line ending of the file like any other
         if same is not None:
             lines.append(text + opt + "#" + same)
         else:
@@ -448,6 +456,36 @@ def expected_section(sec: typing.Any, refs: typing.Dict[int, str], root: str, wi
     if with_docs:
         out["doc"] = join_doc(sec["header"])
     return out
+
+
+def deep_expected(spec: typing.Any) -> str:
+    """Structural spelling of a field type: nested composites are spelled out (fields and all) instead of being named."""
+    k = spec[0]
+    if k == "fixed":
+        return "%s[%d]" % (deep_expected(spec[1]), spec[2])
+    if k == "var":
+        return "%s[<=%d]" % (deep_expected(spec[1]), spec[2])
+    if k == "delim":
+        return "delimited(%s, %d)" % (deep_expected(spec[1]), layout.extent(layout.freeze(spec)))
+    if k in ("struct", "union"):
+        return "%s{%s}" % (k, "; ".join((deep_expected(t) + " " + n).strip() for n, t in spec[1]))
+    return layout.type_string(spec)
+
+
+def deep_observed(t: typing.Any) -> str:
+    """The same spelling taken from the objects the library returned (what is really inside an array's element type, a nested field...)."""
+    import pydsdl
+
+    if isinstance(t, pydsdl.FixedLengthArrayType):
+        return "%s[%d]" % (deep_observed(t.element_type), t.capacity)
+    if isinstance(t, pydsdl.VariableLengthArrayType):
+        return "%s[<=%d]" % (deep_observed(t.element_type), t.capacity)
+    if isinstance(t, pydsdl.DelimitedType):
+        return "delimited(%s, %d)" % (deep_observed(t.inner_type), t.extent)
+    if isinstance(t, pydsdl.CompositeType):
+        k = "union" if isinstance(t, pydsdl.UnionType) else "struct"
+        return "%s{%s}" % (k, "; ".join((deep_observed(f.data_type) + " " + f.name).strip() for f in t.fields))
+    return str(t)
 
 
 def expected_fingerprint(model: typing.Any, refs: typing.Dict[int, str], root: str, with_docs: bool = True) -> typing.Any:
